@@ -64,7 +64,7 @@ func (f *Abs) Call(s *slip.Scope, args slip.List, depth int) (result slip.Object
 	case *slip.Bignum:
 		var z big.Int
 		_ = z.Abs((*big.Int)(ta))
-		result = (*slip.Bignum)(&z)
+		result = slip.IntegerFromBig(&z)
 	case *slip.LongFloat:
 		var z big.Float
 		_ = z.Abs((*big.Float)(ta))
